@@ -424,8 +424,8 @@ theorem producer_protocol_pinned :
     orderCloseBody = ["o.done()", "o.wg.Wait()"] ∧
     orderNewBody.contains "o.wg.Add(1)" = true ∧ orderNewBody.contains "defer o.wg.Done()" = true ∧
     orderNewBody.contains "defer close(o.out)" = true ∧
-    orderNextBody = ["if o.err != nil || o.ctx.Err() != nil {", "return false", "}", "select {", "case id := <-o.out:",
-      "if id == 0 {", "return false", "}", "o.id = id", "return true", "case <-o.ctx.Done():", "return false", "}"] := by
+    orderNextBody = ["if o.err != nil || o.ctx.Err() != nil {", "return false", "}", "select {", "case id, ok := <-o.out:",
+      "if !ok {", "return false", "}", "o.id = id", "return true", "case <-o.ctx.Done():", "return false", "}"] := by
   decide +kernel
 
 /-! ## non-vacuity: a 2-cycle with a self loop, and a DAG -/
